@@ -308,12 +308,20 @@ static void one_case(vrng *r, uint64_t global)
     for (uint32_t i = 0; i < ncalls && !vw_stop(); i++) {
         uint32_t x = vrn(r, wsum); int a = 0;
         while (x >= weights[a]) { x -= weights[a]; a++; }
+        /* keep sequences alive: restart now and then after a latched error, enter containers the cursor is on */
+        if (c.p->error_flags != BINSON_ERROR_NONE && vrn(r, 100) < 25) { static const int re[] = { A_INIT_OBJ, A_INIT_ARR, A_RESET, A_VERIFY }; a = re[vrn(r, 4)]; }
+        else if (c.inited_ok && c.p->error_flags == BINSON_ERROR_NONE && vrn(r, 100) < 30) {
+            binson_type t = binson_parser_get_type(c.p);
+            if (t == BINSON_TYPE_OBJECT) a = A_GO_OBJ; else if (t == BINSON_TYPE_ARRAY) a = A_GO_ARR;
+        }
+        else if (lookups_allowed(&c) && vrn(r, 100) < 30) a = A_FIELD + (int)vrn(r, 4);
         if ((a == A_PRINT || a == A_TO_STRING) && c.n > 5000) a = A_NEXT;
         do_call(&c, r, a);
         if (c.trace.n > 5000) { memmove(c.trace.p, c.trace.p + 2500, c.trace.n - 2500); c.trace.n -= 2500; memcpy(c.trace.p, "...", 3); }
     }
     if (memcmp(c.buf, c.pristine, c.n) != 0) fail(&c, "c01:input-modified", "the parser wrote into the input buffer");
     vw_count("api_calls", ncalls + 1);
+    vw_max("max_depth_reached", (uint64_t)c.sp);
     if (c.doc0.n >= 2) vw_nontrivial(vh_hash(c.doc0.p, c.doc0.n, vh_hash(c.trace.p, c.trace.n, (uint64_t)c.max_depth)));
     if (vw_want_sample() && c.n > 4 && c.n < 50 && c.trace.n < 500) {
         vbuf s; memset(&s, 0, sizeof s);
